@@ -4,6 +4,7 @@ Quantifiers: every service (any number of registrations, arbitrary names,
 duplicates allowed), every method string, every parameter value.
 -/
 import VarlinkVerif.Lemmas.Wire
+import VarlinkVerif.Lemmas.WireExtracted
 import VarlinkVerif.Props.C01
 
 namespace VV
@@ -237,5 +238,14 @@ theorem C03_description_invalid_parameter (c : Consts) (svc : Service) (req : Re
 example :
     ifaceOf "a.b.c.M" = some "a.b.c" ∧ ifaceOf "a.b.M" = some "a.b" ∧ ifaceOf "nodot" = none ∧
     ifaceOf "a." = some "a" ∧ ifaceOf ".M" = some "" := by decide
+
+/-- Tie by extraction: the name of the built-in interface and the four error names the library replies
+    with are the string literals of /repo/varlink/src/lib.rs now (read on every run). -/
+theorem C03_names_are_source :
+    svcName = ExtractedWire.svcName ∧
+    sInterfaceNotFound = ExtractedWire.sInterfaceNotFound ∧
+    sMethodNotFound = ExtractedWire.sMethodNotFound ∧
+    sMethodNotImplemented = ExtractedWire.sMethodNotImplemented ∧
+    sInvalidParameter = ExtractedWire.sInvalidParameter := names_are_source
 
 end VV
